@@ -460,7 +460,7 @@ def run(F, R, tier):
         ok = False
         det = ""
         if ifs and "e" in ifs[-1]:
-            els = ifs[-1]["e"]
+            els = H.inline_helpers(F, ifs[-1]["e"], max_size=400)   # the arm may be built by a constructor helper of the AST
             pushes = [c for c in H.walk(els) if c.get("k") == "mcall" and c["m"] == "push" and H.is_local(H.strip(c["recv"]))]
             structs = [x for x in H.walk(els) if x.get("k") == "struct"]
             names = [H.last(x["res"].get("path")) for x in structs]
